@@ -31,7 +31,12 @@ def rand_cell(rng):
         a, b, c = (round(rng.uniform(1.5, 12.0), rng.choice([0, 1, 3, 6])) for _ in range(3))
         kind = rng.random()
         if kind < 0.25:
-            al, be, ga = (rng.choice([60.0, 90.0, 120.0, 90.0]) for _ in range(3))
+            # the angles the code treats specially (_EXACT_COSD through cosd(x) and sind(x) = cosd(90 - x))
+            al, be, ga = (rng.choice([30.0, 60.0, 90.0, 120.0, 150.0, 90.0]) for _ in range(3))
+        elif kind < 0.33:
+            al, be, ga = [rng.choice([30.0, 60.0, 120.0, 150.0])] + [round(rng.uniform(50, 130), 1) for _ in range(2)]
+            rng.shuffle([al, be, ga])
+            al, be, ga = rng.sample([al, be, ga], 3)
         elif kind < 0.5:
             al, be, ga = 90.0, round(rng.uniform(60, 130), 2), 90.0
         else:
